@@ -399,6 +399,28 @@ pub fn explore(case: &CCase, mode: &str, bound: usize, max_runs: u64, seed: u64,
         break;
       }
     }
+  } else if mode == "sweep" {
+    // every schedule that deviates from the default one at exactly ONE choice point (any alternative there) and follows the
+    // default policy afterwards: linear in the length of the run, and it reaches the early preemptions that the depth-first
+    // enumeration only gets to last
+    let r0 = run_ccase(case, Strategy::Dfs { prefix: vec![] }, log_locks, budget);
+    runs += 1;
+    emit(&r0, json!({"dfs": Vec::<usize>::new()}), &mut seen);
+    let base: Vec<usize> = r0.choices.iter().map(|c| c.n_enabled).collect();
+    exhausted = true;
+    'outer: for (i, n) in base.iter().enumerate() {
+      for k in 1..*n {
+        if runs >= max_runs {
+          exhausted = false;
+          break 'outer;
+        }
+        let mut prefix = vec![0usize; i];
+        prefix.push(k);
+        let r = run_ccase(case, Strategy::Dfs { prefix: prefix.clone() }, log_locks, budget);
+        runs += 1;
+        emit(&r, json!({"dfs": prefix}), &mut seen);
+      }
+    }
   } else {
     for i in 0..max_runs {
       let s = seed.wrapping_mul(1_000_003).wrapping_add(i + 1);
